@@ -5,6 +5,8 @@ import OVM.Refine.CacheSet
 import OVM.Refine.CacheImmediate
 import OVM.Refine.CacheAssembly
 import OVM.Refine.LogicalRead
+import OVM.Refine.LogicalDeleteList
+import OVM.Refine.LogicalDeleteCount
 /-
   C04 — garbage collection preserves the logical mesh and remaps tracked handles.
   Proved here for every state:
@@ -378,8 +380,8 @@ theorem garbage_collection_preserves_logical_mesh (k : Kernel) (hi : Global.GInv
     (both sides use the `fast` setting of `k`) and every bottom-up configuration.
     `_partial`: ONE deletion.  For a list of deletions the two runs use different handles from the second call on (the
     immediate run renumbers after every call), so the statement needs the arguments of the immediate run translated
-    through the renumbering so far; the ingredients are here (`LogMinus.comp`, `LogMinus.iso_of_same`,
-    `deletion_removes_exactly_the_closure` on every intermediate state) but the induction is not carried out. -/
+    through the renumbering so far: that is `deferred_list_then_gc_equals_immediate` below (this theorem is its
+    one-request instance, `single_request_instance`). -/
 theorem deferred_then_gc_equals_immediate_partial (k : Kernel) (hi : Global.GInv k) (hd : k.deferred = true)
     (hn : k.needsGC = false) :
     (∀ c, c < k.nC → ∃ ρ, LogIso (k.deleteCell c).collectGarbage (({ k with deferred := false } : Kernel).deleteCell c) ρ) ∧
@@ -435,5 +437,175 @@ example : Global.GInv tetK ∧ tetK.deferred = true ∧ tetK.needsGC = false ∧
     (({ tetK with deferred := false } : Kernel).deleteVertex 0).faces = [[5, 0, 3]] :=
   ⟨ginv_tetK, rfl, by decide, by decide,
    (deferred_then_gc_equals_immediate_partial tetK ginv_tetK rfl (by decide)).2.2.2 0 (by decide), by decide, by decide⟩
+
+end OVM.Props.C04
+
+/-! ======================= appended by builder (lists of deletions, C04) ======================= -/
+namespace OVM.Props.C04
+open OVM OVM.Kernel OVM.Kernel.Logical
+
+/-! ------------------------------------------------------------------------------------------
+    Lists of deletions (OVM/Refine/LogicalDeleteList.lean).  A request list `ds : List Req` (kind + handle) is written
+    in the handles of the start state `k`.
+    * `runDef k ds` — the deferred run: `delete_*` with the handles as written (nothing moves in deferred mode); a
+      request whose entity does not exist or is flagged already is skipped (`delete_*` asserts `!is_deleted(_h)`,
+      TopologyKernel.cc:629/681/724/755).
+    * `ImmRun k ds kf` — an immediate run from `{k with deferred := false}` ending in `kf`: the bookkeeping carries the
+      renumbering `σ` from `k`'s handles to the current ones and the set `R` of `k`'s entities removed so far; a request is
+      skipped when its entity was not live in `k` or is in `R` (removed by the cascade of an earlier request), otherwise
+      `delete_*` is called at the handle read through `σ`, and `σ`, `R` are updated with ANY renumbering `ρ` for which
+      that call is "the current logical mesh minus the closure of the victim" (`TrackedRun.exec`; the real renumbering of
+      every mode is one: `deletion_removes_exactly_the_closure`, C02).
+    * `closure k (reqSet k ds)` — the abstract specification: the requested live entities and everything incident
+      upwards to a removed entity (edges of removed vertices, faces of removed edges, cells of removed faces).
+    ------------------------------------------------------------------------------------------ -/
+
+/-- **Any list of deferred deletions followed by `collect_garbage` equals the same deletions performed immediately, up
+    to renumbering.**  Let `k` be a deferred-mode state with nothing pending that satisfies the reachability invariant
+    (`fast` on or off, every bottom-up configuration).  For every request list `ds`: an immediate run exists (it never
+    gets stuck), and for EVERY immediate run `kf` (whatever renumberings were used to track the handles)
+      * `(runDef k ds).collectGarbage` is the logical mesh of `k` minus the upward closure of the requested set,
+      * so is `kf`,
+      * hence the two have the same logical mesh (`LogIso`: entities, definitions, all property values),
+      * and the collected state satisfies the invariant again with nothing pending.
+    The order of the requests, repetitions and requests made void by an earlier cascade do not matter. -/
+theorem deferred_list_then_gc_equals_immediate (k : Kernel) (hi : Global.GInv k) (hd : k.deferred = true)
+    (hn : k.needsGC = false) (ds : List Req) :
+    (∃ kf, ImmRun k ds kf) ∧
+    ∀ kf, ImmRun k ds kf →
+      (∃ ρ, LogMinus k (runDef k ds).collectGarbage ρ (closure k (reqSet k ds))) ∧
+      (∃ ρ, LogMinus k kf ρ (closure k (reqSet k ds))) ∧
+      (∃ ρ, LogIso (runDef k ds).collectGarbage kf ρ) ∧
+      Global.GInv (runDef k ds).collectGarbage ∧ (runDef k ds).collectGarbage.needsGC = false := by
+  obtain ⟨ex, h⟩ := deferred_list_gc_eq_immediate hi hd hn ds
+  refine ⟨ex, fun kf r => ?_⟩
+  obtain ⟨a, b, c, g⟩ := h kf r
+  obtain ⟨gd, dd⟩ := runDef_ginv hi hd ds
+  exact ⟨a, b, c, g, ((garbage_collection_preserves_logical_mesh _ gd).2.2.1 dd).2.2.2.2⟩
+
+/-- the specification side alone, for any tracked run in any mode (in particular a list of deletions in ONE mode,
+    C02): from a state `k` satisfying the invariant, every run of the requests `ds` — handles read through the
+    renumberings so far — ends in the logical mesh of `k` minus the upward closure of the requested set -/
+theorem deletion_list_removes_exactly_the_closure (k : Kernel) (hi : Global.GInv k) (ds : List Req) :
+    (∃ kf, TrackedRun k k Ren.id Rem.none ds kf) ∧
+    ∀ kf, TrackedRun k k Ren.id Rem.none ds kf → ∃ ρ, LogMinus k kf ρ (closure k (reqSet k ds)) := by
+  refine ⟨tracked_exists ds k _ _ hi (LogIso.refl k), fun kf r => ?_⟩
+  obtain ⟨σ, s⟩ := tracked_spec hi.wf hi.closed r Rem.none (EqLive.refl _ _) (upClosed_none k) (LogIso.refl k)
+  exact ⟨σ, (s.congrLive (eqLive_none_union k _)).congrLive (eqLive_cloSet_closure k ds)⟩
+
+/-- the one-request instance: `deferred_then_gc_equals_immediate_partial` (live victims) is a corollary -/
+theorem single_request_instance (k : Kernel) (hi : Global.GInv k) (hd : k.deferred = true) (hn : k.needsGC = false)
+    (d : Req) (hl : d.live k = true) :
+    ∃ ρ, LogIso (d.apply k).collectGarbage (d.apply ({ k with deferred := false } : Kernel)) ρ := by
+  have gI := ginv_immediate hi hn
+  have hlI : d.live ({ k with deferred := false } : Kernel) = true := by cases d <;> exact hl
+  obtain ⟨ρ, _, step⟩ := Req.logical gI hlI
+  have h := ((deferred_list_then_gc_equals_immediate k hi hd hn [d]).2 _ (immRun_single hl step)).2.2.1
+  have e : runDef k [d] = d.apply k := by simp [runDef, hl]
+  rw [e] at h
+  exact h
+
+/-! non-vacuity -/
+
+set_option maxRecDepth 8000 in
+/-- the hypotheses hold for the tetrahedron, and the relation `ImmRun` really is the immediate call sequence with
+    translated handles: for the requests "vertex 0, face 2, cell 0" (face 2 is the face opposite vertex 0; cell 0 is in
+    the closure of both, so the third request is void) the immediate run is `delete_vertex(0)` followed by
+    `delete_face(0)` — after the first call the surviving face 2 carries the handle 0 — and the third request is skipped.
+    Both runs leave the triangle's three vertices and three edges (the evaluations are a TEST next to the theorem). -/
+example : Global.GInv tetK ∧ tetK.deferred = true ∧ tetK.needsGC = false ∧
+    (∃ kf, ImmRun tetK [Req.vertex 0, Req.face 2, Req.cell 0] kf ∧ kf = (tetFI.deleteVertex 0).deleteFace 0 ∧
+      ∃ ρ, LogIso (runDef tetK [Req.vertex 0, Req.face 2, Req.cell 0]).collectGarbage kf ρ) ∧
+    (runDef tetK [Req.vertex 0, Req.face 2, Req.cell 0]).fDel = [true, true, true, true] ∧
+    (runDef tetK [Req.vertex 0, Req.face 2, Req.cell 0]).collectGarbage.edges = [(0, 2), (1, 2), (0, 1)] ∧
+    (runDef tetK [Req.vertex 0, Req.face 2, Req.cell 0]).collectGarbage.faces = [] ∧
+    (runDef tetK [Req.vertex 0, Req.face 2, Req.cell 0]).collectGarbage.nV = 3 ∧
+    ((tetFI.deleteVertex 0).deleteFace 0).edges = [(0, 2), (1, 2), (0, 1)] ∧
+    ((tetFI.deleteVertex 0).deleteFace 0).faces = [] ∧ ((tetFI.deleteVertex 0).deleteFace 0).nV = 3 := by
+  have g0 : Global.GInv tetFI := ginv_immediate (k := tetK) ginv_tetK (by decide)
+  obtain ⟨ρ1, _, s1⟩ := Req.logical g0 (d := Req.vertex 0) (by decide)
+  have g1 := Req.ginv g0 (d := Req.vertex 0) (by decide)
+  have hnot : ¬ upF tetFI (upE tetFI (· = 0)) 2 := by unfold upF upE; decide
+  have hsurv : SurvF tetFI (cloV tetFI 0) 2 := ⟨by decide, by decide, hnot⟩
+  have h2 : ρ1.f 2 < (tetFI.deleteVertex 0).faces.length := (s1.f.into 2 hsurv).1
+  have hlen : (tetFI.deleteVertex 0).faces.length = 1 := by decide
+  have e2 : ρ1.f 2 = 0 := by omega
+  have em : (Req.face 2).map (ρ1.comp Ren.id) = Req.face 0 := by
+    show Req.face (ρ1.f 2) = _
+    rw [e2]
+  obtain ⟨ρ2, _, s2⟩ := Req.logical g1 (d := Req.face 0) (by decide)
+  have run : ImmRun tetK [Req.vertex 0, Req.face 2, Req.cell 0] ((tetFI.deleteVertex 0).deleteFace 0) := by
+    have r : TrackedRun tetK tetFI Ren.id Rem.none [Req.vertex 0, Req.face 2, Req.cell 0]
+        (Req.apply (tetFI.deleteVertex 0) ((Req.face 2).map (ρ1.comp Ren.id))) :=
+      TrackedRun.exec (k0 := tetK) (d := Req.vertex 0) (ρ := ρ1) (by decide) (fun h => h) s1
+      (TrackedRun.exec (d := Req.face 2) (ρ := ρ2) (by decide) (fun h => h.elim (fun x => x) hnot) (by rw [em]; exact s2)
+        (TrackedRun.skip (Or.inr (Or.inl (Or.inr (by
+          show upC tetFI (upF tetFI (upE tetFI (· = 0))) 0
+          unfold upC upF upE; decide)))) (TrackedRun.done _ _ _)))
+    rw [em] at r
+    exact r
+  have h := (deferred_list_then_gc_equals_immediate tetK ginv_tetK rfl (by decide)
+    [Req.vertex 0, Req.face 2, Req.cell 0]).2 _ run
+  exact ⟨ginv_tetK, rfl, by decide, ⟨_, run, rfl, h.2.2.1⟩, by decide, by decide, by decide, by decide, by decide,
+    by decide, by decide⟩
+
+set_option maxRecDepth 8000 in
+/-- the other order ("face 2, vertex 0") gives the same mesh on both sides (TEST by evaluation; that it must is the
+    theorem: the closure of the requested set does not depend on the order) -/
+example : (∃ kf, ImmRun tetK [Req.face 2, Req.vertex 0] kf ∧
+      ∃ ρ, LogIso (runDef tetK [Req.face 2, Req.vertex 0]).collectGarbage kf ρ) ∧
+    (runDef tetK [Req.face 2, Req.vertex 0]).collectGarbage.edges = [(0, 2), (1, 2), (0, 1)] ∧
+    (runDef tetK [Req.face 2, Req.vertex 0]).collectGarbage.faces = [] ∧
+    ((tetFI.deleteFace 2).deleteVertex 0).edges = [(0, 2), (1, 2), (0, 1)] ∧
+    ((tetFI.deleteFace 2).deleteVertex 0).faces = [] := by
+  obtain ⟨⟨kf, r⟩, h⟩ := deferred_list_then_gc_equals_immediate tetK ginv_tetK rfl (by decide) [Req.face 2, Req.vertex 0]
+  exact ⟨⟨kf, r, (h kf r).2.2.1⟩, by decide, by decide, by decide, by decide⟩
+
+end OVM.Props.C04
+
+/-! ======================= appended by builder (pending counters, C04) ======================= -/
+namespace OVM.Props.C04
+open OVM OVM.Kernel OVM.Kernel.Logical
+
+/-- **The pending-deletion counters count the flags, along deletion histories.**  `CountInv k`: `n_deleted_* = number of
+    flagged slots`, per kind.  It holds in every state with nothing pending, and from a state satisfying it and the
+    reachability invariant it is kept by `delete_*` of a live entity in every mode, by `collect_garbage`, by
+    `enable_deferred_deletion`, hence along every list of deletion requests followed or not by a collection; and it
+    makes `n_logical_*` the number of live entities (`nLive`: not-flagged slots) — the truncated subtraction hides nothing.
+    `_partial`: the other operations of the vocabulary (`add_*`, `set_*`, `swap_*`, the bottom-up switches, `clear`) are
+    not covered (they do not touch the counters and only append unflagged slots / permute flags); and the victim of a
+    `delete_*` must be live — the C++ `assert(!is_deleted(_h))`: the deferred cores bump the counter unconditionally, so
+    deleting a flagged entity again would leave `n_deleted_*` one too high. -/
+theorem pending_counters_count_flags_partial (k : Kernel) (hi : Global.GInv k) :
+    (k.needsGC = false → CountInv k) ∧
+    (CountInv k →
+      (∀ d : Req, d.live k = true → CountInv (d.apply k)) ∧ CountInv k.collectGarbage ∧
+      (∀ b, CountInv (k.enableDeferred b)) ∧
+      (∀ ds, CountInv (runDef k ds) ∧ CountInv (runDef k ds).collectGarbage) ∧
+      (k.nLogV = nLive k.nV k.vDel ∧ k.nLogE = nLive k.edges.length k.eDel ∧ k.nLogF = nLive k.faces.length k.fDel ∧
+        k.nLogC = nLive k.cells.length k.cDel)) := by
+  refine ⟨fun hn => ?_, fun ci => ⟨fun d hl => Req.countInv hi hl ci, ?_, fun b => ?_, fun ds => ?_, nLog_eq_nLive hi.wf ci⟩⟩
+  · obtain ⟨n1, n2, n3, n4⟩ := hi.noFlag_of_noGC hn
+    obtain ⟨z1, z2, z3, z4⟩ := needsGC_false_iff hn
+    exact countInv_of_noFlag n1 n2 n3 n4 z1 z2 z3 z4
+  · exact countInv_collectGarbage hi (collectGarbage_modes k).2.2.2.2.2 ci
+  · exact countInv_enableDeferred hi (collectGarbage_modes k).2.2.2.2.2 b ci
+  · obtain ⟨c, g⟩ := countInv_runDef ds hi ci
+    exact ⟨c, countInv_collectGarbage g (collectGarbage_modes _).2.2.2.2.2 c⟩
+
+set_option maxRecDepth 8000 in
+/-- non-vacuity: the tetrahedron has exact counters; after the deferred requests "vertex 0, face 2, cell 0" one vertex,
+    three edges, four faces and the cell are flagged and the counters say so (TEST by evaluation next to the theorem):
+    `n_logical_faces = 0` -/
+example : CountInv tetK ∧ CountInv (runDef tetK [Req.vertex 0, Req.face 2, Req.cell 0]) ∧
+    (runDef tetK [Req.vertex 0, Req.face 2, Req.cell 0]).nDelV = 1 ∧
+    (runDef tetK [Req.vertex 0, Req.face 2, Req.cell 0]).nDelE = 3 ∧
+    (runDef tetK [Req.vertex 0, Req.face 2, Req.cell 0]).nDelF = 4 ∧
+    (runDef tetK [Req.vertex 0, Req.face 2, Req.cell 0]).nDelC = 1 ∧
+    (runDef tetK [Req.vertex 0, Req.face 2, Req.cell 0]).eDel = [true, false, true, true, false, false] ∧
+    (runDef tetK [Req.vertex 0, Req.face 2, Req.cell 0]).nLogF = 0 := by
+  have c0 := (pending_counters_count_flags_partial tetK ginv_tetK).1 (by decide)
+  exact ⟨c0, ((pending_counters_count_flags_partial tetK ginv_tetK).2 c0).2.2.2.1 _ |>.1, by decide, by decide, by decide,
+    by decide, by decide, by decide⟩
 
 end OVM.Props.C04
